@@ -1,0 +1,138 @@
+//go:build verif
+
+// Contracts for package icmp, read by /verif/govc (comment lines starting with //@).
+// With the verif tag off this file is not compiled; with it on it only adds pure spec helpers.
+
+package icmp
+
+import (
+	"encoding/binary"
+	"net/netip"
+
+	"github.com/google/gopacket/layers"
+
+	"github.com/DataDog/datadog-traceroute/packets"
+)
+
+func specSent(s *icmpDriver, t uint8) bool {
+	v, ok := s.sentProbes[t]
+	return ok && !v.IsZero()
+}
+
+func specInRange(s *icmpDriver, t uint8) bool {
+	return s.params.ParallelParams.MinTTL <= t && t <= s.params.ParallelParams.MaxTTL
+}
+
+func specOuterSrc(p *packets.FrameParser) netip.Addr { return packets.SpecOuterSrc(p) }
+
+// specPlainTE4: the quote is as routers produce it for our probes (no IP options, consistent total length)
+// and carries the complete 8-byte echo header of an echo request.
+func specPlainTE4(p *packets.FrameParser) bool {
+	q := p.ICMP4.Payload
+	return packets.SpecQ4Plain(q) && packets.SpecQ4PayLen(q) >= 8 && q[20] == 8
+}
+
+// specPlainTE6: no extension header between the quoted IPv6 header and the echo request, which is complete.
+func specPlainTE6(p *packets.FrameParser) bool {
+	q := p.ICMP6.Payload
+	return packets.SpecQ6ok(q) && packets.SpecQ6Next(q) != 0 && packets.SpecQ6Len(q) >= 8 && len(q) >= 52 && q[44] == 128
+}
+
+func specIsTE4(p *packets.FrameParser) bool {
+	return p.GetTransportLayer() == layers.LayerTypeICMPv4 && p.ICMP4.TypeCode.Type() == layers.ICMPv4TypeTimeExceeded
+}
+func specIsER4(p *packets.FrameParser) bool {
+	return p.GetTransportLayer() == layers.LayerTypeICMPv4 && p.ICMP4.TypeCode.Type() == layers.ICMPv4TypeEchoReply
+}
+func specIsTE6(p *packets.FrameParser) bool {
+	return p.GetTransportLayer() == layers.LayerTypeICMPv6 && p.ICMP6.TypeCode.Type() == layers.ICMPv6TypeTimeExceeded
+}
+func specIsER6(p *packets.FrameParser) bool {
+	return p.GetTransportLayer() == layers.LayerTypeICMPv6 && p.ICMP6.TypeCode.Type() == layers.ICMPv6TypeEchoReply
+}
+
+// specGenuineTE4: the packet is a time-exceeded that quotes this run's probe with TTL t:
+// the probe's addresses, the run's echo identifier and the full 16-bit sequence number t.
+func specGenuineTE4(s *icmpDriver, p *packets.FrameParser, t uint8) bool {
+	q := p.ICMP4.Payload
+	if !specIsTE4(p) || !packets.SpecQ4ok(q) {
+		return false
+	}
+	l4 := packets.SpecQ4L4(q)
+	return len(l4) >= 8 &&
+		packets.SpecQ4Src(q) == s.localAddr && packets.SpecQ4Dst(q) == s.params.Target &&
+		binary.BigEndian.Uint16(l4[4:6]) == s.echoID && binary.BigEndian.Uint16(l4[6:8]) == uint16(t) &&
+		specInRange(s, t) && specSent(s, t)
+}
+
+// specGenuineER4: an echo reply on the probe's own flow: from the target, with the run's identifier and sequence t.
+func specGenuineER4(s *icmpDriver, p *packets.FrameParser, t uint8) bool {
+	return specIsER4(p) && p.ICMP4.Id == s.echoID && p.ICMP4.Seq == uint16(t) &&
+		specOuterSrc(p) == s.params.Target && specInRange(s, t) && specSent(s, t)
+}
+
+func specGenuineTE6(s *icmpDriver, p *packets.FrameParser, t uint8) bool {
+	q := p.ICMP6.Payload
+	if !specIsTE6(p) || !packets.SpecQ6ok(q) {
+		return false
+	}
+	l4 := packets.SpecQ6L4(q)
+	return len(l4) >= 8 &&
+		packets.SpecQ6Src(q) == s.localAddr && packets.SpecQ6Dst(q) == s.params.Target &&
+		binary.BigEndian.Uint16(l4[4:6]) == s.echoID && binary.BigEndian.Uint16(l4[6:8]) == uint16(t) &&
+		specInRange(s, t) && specSent(s, t)
+}
+
+func specGenuineER6(s *icmpDriver, p *packets.FrameParser, t uint8) bool {
+	q := p.ICMP6.Payload
+	return specIsER6(p) && len(q) >= 4 &&
+		binary.BigEndian.Uint16(q[0:2]) == s.echoID && binary.BigEndian.Uint16(q[2:4]) == uint16(t) &&
+		specOuterSrc(p) == s.params.Target && specInRange(s, t) && specSent(s, t)
+}
+
+//@ assume func extractEchoRequest
+//@ trusted gopacket DecodingLayerParser over {ICMPv6, ICMPv6Echo}: transcribed from gopacket v1.1.19 icmp6.go / icmp6msg.go
+//@ ensures[ext.ok]     ret1 == nil ==> ret0 != nil && fresh(ret0) && len(icmpInfo.Payload) >= 8 && (icmpInfo.Payload[0] == 128 || icmpInfo.Payload[0] == 129)
+//@ ensures[ext.val]    ret1 == nil ==> int(ret0.Identifier) == int(be16(icmpInfo.Payload, 4)) && int(ret0.SeqNumber) == int(be16(icmpInfo.Payload, 6))
+//@ ensures[ext.compl]  len(icmpInfo.Payload) >= 8 && icmpInfo.Payload[0] == 128 ==> ret1 == nil
+//@ ensures[ext.class]  ret1 != nil ==> !chain(ret1, *common.ReceiveProbeNoPktError) && !chain(ret1, *common.BadPacketError)
+//@ modifies nothing
+
+//@ func (*icmpDriver).findMatchingProbe
+//@ inline
+//@ safety C09
+//@ requires[pre.nonnil]  s != nil
+//@ ensures[C05.find]     ret1 == has(s.sentProbes, ttl) && ret0 == s.sentProbes[ttl]
+//@ modifies s.mu
+
+//@ func (*icmpDriver).getRTTFromRelSeq
+//@ inline
+//@ safety C09
+//@ requires[pre.nonnil]  s != nil
+//@ requires[pre.past]    forall(k, 0, 256, s.sentProbes[k] <= now())
+//@ ensures[C01.rtt.ok]   (ret1 == nil) == (specInRange(s, relSeq) && specSent(s, relSeq))
+//@ ensures[C05.rtt.val]  ret1 == nil ==> ret0 >= 0 && ret0 == now() - s.sentProbes[relSeq]
+//@ ensures[C09.rtt.class] ret1 != nil ==> !chain(ret1, *common.ReceiveProbeNoPktError) && !chain(ret1, *common.BadPacketError)
+//@ modifies s.mu, ghost clock
+
+//@ func (*icmpDriver).handleProbeLayers
+//@ safety C09
+//@ requires[pre.nonnil]     s != nil && parser != nil
+//@ requires[pre.parsed]     packets.SpecParsed(parser)
+//@ requires[pre.past]       forall(k, 0, 256, s.sentProbes[k] <= now())
+//@ ensures[C09.xor]         (ret0 == nil) != (ret1 == nil)
+//@ ensures[C09.class]       ret1 != nil ==> chain(ret1, *common.ReceiveProbeNoPktError) || chain(ret1, *common.BadPacketError)
+//@ ensures[C01.sound.kind]  ret0 != nil ==> specIsTE4(parser) || specIsER4(parser) || specIsTE6(parser) || specIsER6(parser)
+//@ ensures[C01.sound.te4]   ret0 != nil && specIsTE4(parser) ==> specGenuineTE4(s, parser, ret0.TTL)
+//@ ensures[C01.sound.er4]   ret0 != nil && specIsER4(parser) ==> specGenuineER4(s, parser, ret0.TTL)
+//@ ensures[C01.sound.te6]   ret0 != nil && specIsTE6(parser) && packets.SpecQ6Next(parser.ICMP6.Payload) != 0 ==> specGenuineTE6(s, parser, ret0.TTL)
+//@ ensures[C01.sound.er6]   ret0 != nil && specIsER6(parser) ==> specGenuineER6(s, parser, ret0.TTL)
+//@ ensures[C01.addr]        ret0 != nil ==> ret0.IP == specOuterSrc(parser)
+//@ ensures[C02.compl.te4]   forall(t, 0, 256, specGenuineTE4(s, parser, t) && specPlainTE4(parser) ==> ret0 != nil && int(ret0.TTL) == t)
+//@ ensures[C02.compl.te6]   forall(t, 0, 256, specGenuineTE6(s, parser, t) && specPlainTE6(parser) ==> ret0 != nil && int(ret0.TTL) == t)
+//@ ensures[C02.compl.er4]   forall(t, 0, 256, specGenuineER4(s, parser, t) ==> ret0 != nil && int(ret0.TTL) == t)
+//@ ensures[C02.compl.er6]   forall(t, 0, 256, specGenuineER6(s, parser, t) ==> ret0 != nil && int(ret0.TTL) == t)
+//@ ensures[C04.dest]        ret0 != nil ==> (ret0.IsDest == ((specIsER4(parser) || specIsER6(parser)) && specOuterSrc(parser) == s.params.Target))
+//@ ensures[C05.rtt]         ret0 != nil ==> ret0.RTT >= 0 && ret0.RTT == now() - s.sentProbes[ret0.TTL]
+//@ ensures[C01.fresh]       ret0 != nil ==> fresh(ret0)
+//@ modifies s.mu, ghost clock
